@@ -239,11 +239,18 @@ Fixpoint number_args (i : nat) (l : list value) : list (string * value) :=
   | v :: r => ("arg_" ++ str_of_N (N.of_nat i), v) :: number_args (S i) r
   end.
 
+(* the dict _parse_directive_args fills: result["arg_<i>"] = value for the positional arguments, then
+   result[keyword] = value for the keyword arguments IN THE SAME dict -- a keyword named like a marker
+   (f(1, arg_0=2)) or written twice (f(a=1, a=2): ast.parse accepts it) overwrites the earlier entry and keeps
+   its position *)
+Definition args_dict (pos : list value) (kw : list (string * value)) : list (string * value) :=
+  update (number_args 0 pos) kw.
+
 (* _parse_directive_args: any failure is reported as ValueError *)
 Definition parse_args (ctx : env) (args : string) : res (list (string * value)) :=
   if all_space args then Ok [] else
   match o_args orc ctx args with
-  | Ok (pos, kw) => Ok (number_args 0 pos ++ kw)%list
+  | Ok (pos, kw) => Ok (args_dict pos kw)
   | Exc _ => Exc ValueError
   end.
 
